@@ -244,12 +244,42 @@ func (cachehist) Gen(r *Rng, cfg GenConfig) any {
 		c.Prog.Tasks[0].NCmd = Pick(r, []int{255, 256, 257, 512})
 	}
 	c.Prog.Seq = r.Chance(1, 4)
+	if cfg.Prop != "nowriters" && len(c.Prog.Tasks) >= 2 && r.Chance(1, 12) {
+		// a task that another one depends on gets a "private"-looking name with a leading underscore
+		for i := range c.Prog.Tasks {
+			old := c.Prog.Tasks[i].Name
+			used := false
+			for k := range c.Prog.Tasks {
+				for _, d := range c.Prog.Tasks[k].Deps {
+					if d.Kind == "task" && d.Value == old {
+						used = true
+					}
+				}
+			}
+			if !used || old == "clean" {
+				continue
+			}
+			nn := "_" + strings.ToLower(old)
+			c.Prog.Tasks[i].Name = nn
+			for k := range c.Prog.Tasks {
+				for di := range c.Prog.Tasks[k].Deps {
+					if c.Prog.Tasks[k].Deps[di].Kind == "task" && c.Prog.Tasks[k].Deps[di].Value == old {
+						c.Prog.Tasks[k].Deps[di].Value = nn
+					}
+				}
+			}
+			break
+		}
+	}
 	if len(c.Prog.Tasks) >= 2 && r.Chance(1, 10) {
 		// two tasks whose names differ only in letter case, with the same dependencies: distinct tasks
 		src, dst := &c.Prog.Tasks[0], &c.Prog.Tasks[len(c.Prog.Tasks)-1]
 		if len(dst.Writes) == 0 && len(src.Writes) == 0 && dst.Name != "clean" {
 			old := dst.Name
 			dst.Name = strings.ToLower(src.Name)
+			if dst.Name == src.Name {
+				dst.Name = src.Name + "x"
+			}
 			if r.Chance(1, 2) {
 				dst.Name = src.Name + Pick(r, []string{"B", "_all", "x"}) // or one name is a prefix of the other
 			}
@@ -313,6 +343,15 @@ func (cachehist) Gen(r *Rng, cfg GenConfig) any {
 			disk[op.Path] = op.Content
 		case "delete":
 			delete(disk, op.Path)
+		case "mvdir":
+			if !isModelDir(disk, op.Content) {
+				for _, k := range sortedKeys(disk) {
+					if strings.HasPrefix(k, op.Path+"/") {
+						disk[op.Content+"/"+strings.TrimPrefix(k, op.Path+"/")] = disk[k]
+						delete(disk, k)
+					}
+				}
+			}
 		}
 		c.Ops = append(c.Ops, op)
 	}
@@ -477,7 +516,13 @@ func (cachehist) Gen(r *Rng, cfg GenConfig) any {
 		case k < 14: // write (create / edit / revert, contents come from a pool of 3)
 			emit(CHOp{Op: "write", Path: Pick(r, chFiles), Content: Pick(r, chContents)})
 		case k < 15:
-			emit(CHOp{Op: "delete", Path: Pick(r, chFiles)})
+			if r.Chance(1, 6) {
+				// a whole directory is renamed (and later renamed back by a second such operation)
+				mv := Pick(r, [][2]string{{"src", "src_moved"}, {"src_moved", "src"}, {"src/sub", "src/sub2"}})
+				emit(CHOp{Op: "mvdir", Path: mv[0], Content: mv[1]})
+			} else {
+				emit(CHOp{Op: "delete", Path: Pick(r, chFiles)})
+			}
 		case k < 16+failBias:
 			t := Pick(r, c.Prog.Tasks)
 			ex := 0
@@ -908,6 +953,35 @@ func (s *projState) applyOp(res *Result, oi string, op CHOp) {
 			res.count("fault_fired:dependency_link_repointed")
 		}
 		res.event("%s relink %s -> %s", oi, op.Path, op.Content)
+	case "mvdir":
+		// rename a directory with everything in it, unless the destination exists or a link / written file lives there
+		from, to := filepath.Join(s.w.Proj, filepath.FromSlash(op.Path)), filepath.Join(s.w.Proj, filepath.FromSlash(op.Content))
+		blocked := false
+		for l, t := range s.links {
+			if strings.HasPrefix(l, op.Path+"/") || strings.HasPrefix(t, op.Path+"/") {
+				blocked = true
+			}
+		}
+		for _, t := range s.prog.Tasks {
+			for _, fw := range t.Writes {
+				if strings.HasPrefix(fw.Path, op.Path+"/") {
+					blocked = true
+				}
+			}
+		}
+		if st, err := os.Stat(from); err == nil && st.IsDir() && !blocked {
+			if _, err := os.Lstat(to); err != nil {
+				must(os.Rename(from, to))
+				for _, k := range sortedKeys(s.disk) {
+					if strings.HasPrefix(k, op.Path+"/") {
+						s.disk[op.Content+"/"+strings.TrimPrefix(k, op.Path+"/")] = s.disk[k]
+						delete(s.disk, k)
+					}
+				}
+				res.count("probe:directory_renamed_with_its_files")
+			}
+		}
+		res.event("%s mvdir %s -> %s", oi, op.Path, op.Content)
 	case "debris":
 		// a stray sibling of the cache file; the cache file itself is untouched, so nothing changes for the model
 		dir := filepath.Join(s.w.Proj, ".spok")
